@@ -1,12 +1,334 @@
-use crate::util::Report;
-use crate::Ctx;
-use serde_json::Value;
+//! C08 — decoder outcome is independent of packet order, duplication and batching.
+//! Stateful: a generated operation history is interpreted over several decoders at once.
 
-pub fn run(_ctx: &Ctx, _rep: &mut Report) {
-    eprintln!("not implemented yet");
-    std::process::exit(2);
+use crate::codec::{build_pool, map_index, ObjectSpec};
+use crate::util::{fnv64, fnv_u64s, run_sharded, Report, Stats};
+use crate::Ctx;
+use proptest::prelude::*;
+use raptorq::{Decoder, Encoder, EncodingPacket, SourceBlockDecoder};
+use serde_json::{json, Value};
+use std::collections::BTreeSet;
+
+#[derive(Debug, Clone, PartialEq)]
+pub enum Op {
+    /// deliver pool packet (raw index) to every decoder
+    Deliver(u16),
+    /// flush the per-block batch buffers through SourceBlockDecoder::decode(iter)
+    Flush,
+    /// replace the decoder under test by its clone, keep the original running alongside
+    Clone,
+    /// compare with the reference history (distinct set, ascending order, fresh decoder)
+    Checkpoint,
 }
 
-pub fn replay(_sub: &str, _case: &Value) -> Result<(), String> {
-    Err("not implemented".into())
+#[derive(Debug, Clone)]
+pub struct Case {
+    spec: ObjectSpec,
+    ops: Vec<Op>,
+}
+
+fn op_strategy() -> impl Strategy<Value = Op> {
+    prop_oneof![
+        20 => any::<u16>().prop_map(Op::Deliver),
+        3 => Just(Op::Flush),
+        1 => Just(Op::Clone),
+        1 => Just(Op::Checkpoint),
+    ]
+}
+
+fn spec_strategy() -> impl Strategy<Value = ObjectSpec> {
+    (
+        prop_oneof![Just((1usize, 1usize)), Just((1, 2)), Just((1, 5)), Just((2, 2)), Just((4, 3)), Just((8, 1)), Just((1, 16))],
+        1usize..=3,
+        any::<u64>(),
+        any::<u64>(),
+        any::<u64>(),
+    )
+        .prop_map(|((al, tu), z, rk, rr, seed)| {
+            let kmax = 40usize;
+            let kt = (z as u64 + rk % (kmax * z - z + 1) as u64) as usize;
+            let t = al * tu;
+            let r = if rr % 3 == 0 { t } else { 1 + ((rr >> 4) % t as u64) as usize };
+            ObjectSpec { al, tu, z, n: 1 + ((rr >> 20) % tu.min(3) as u64) as usize, kt, r, class: rr % 5, seed }
+        })
+}
+
+fn strategy() -> impl Strategy<Value = Case> {
+    (spec_strategy(), proptest::collection::vec(op_strategy(), 0..420)).prop_map(|(spec, ops)| Case { spec, ops })
+}
+
+/// Answer of a fresh object decoder fed the distinct packets in ascending (SBN, ESI) order.
+fn reference_object(cfg: raptorq::ObjectTransmissionInformation, pool: &[EncodingPacket], set: &BTreeSet<(u8, u32, usize)>) -> Option<Vec<u8>> {
+    let mut d = Decoder::new(cfg);
+    let mut out = None;
+    for &(_, _, pi) in set {
+        if let Some(o) = d.decode(pool[pi].clone()) {
+            out = Some(o);
+        }
+    }
+    out
+}
+
+fn reference_block(cfg: &raptorq::ObjectTransmissionInformation, sbn: u8, k: u32, t: usize, pool: &[EncodingPacket], set: &BTreeSet<(u8, u32, usize)>) -> Option<Vec<u8>> {
+    let mut d = SourceBlockDecoder::new(sbn, cfg, k as u64 * t as u64);
+    let mut out = None;
+    for &(b, _, pi) in set {
+        if b == sbn {
+            out = d.decode(std::iter::once(pool[pi].clone()));
+        }
+    }
+    out
+}
+
+fn check(c: &Case, st: &mut Stats) -> Result<(), String> {
+    let spec = &c.spec;
+    let (t, f) = (spec.t(), spec.f());
+    let data = spec.data();
+    let cfg = spec.cfg();
+    let enc = Encoder::new(&data, cfg);
+    let pool = build_pool(&enc, spec.seed, |k| (k as usize / 2 + 6).min(30));
+    let z = pool.ks.len();
+    let npool = pool.packets.len();
+
+    let mut a = Decoder::new(cfg); // one-shot interface, decoder under test
+    let mut a_orig: Option<Decoder> = None; // original kept after a Clone op
+    let mut b = Decoder::new(cfg); // incremental interface
+    let mut blocks: Vec<SourceBlockDecoder> = (0..z).map(|zi| SourceBlockDecoder::new(zi as u8, &cfg, pool.ks[zi] as u64 * t as u64)).collect();
+    let mut block_answer: Vec<Option<Vec<u8>>> = vec![None; z];
+    let mut buffers: Vec<Vec<EncodingPacket>> = vec![vec![]; z];
+    let mut set: BTreeSet<(u8, u32, usize)> = BTreeSet::new();
+    let mut block_set_at_flush: Vec<BTreeSet<(u8, u32, usize)>> = vec![BTreeSet::new(); z];
+    let mut first_answer: Option<Vec<u8>> = None;
+    let mut last_a: Option<Vec<u8>> = None;
+    let mut src_seen = vec![0u32; z];
+    let (mut dup_src_before, mut after_completion, mut clones, mut flushes, mut checkpoints) = (false, 0u32, 0u32, 0u32, 0u32);
+    let mut interleaved = false;
+    let mut last_sbn: Option<u8> = None;
+    let mut switches = 0;
+    let mut deliveries = 0u32;
+
+    let mut flush = |zi: usize, blocks: &mut Vec<SourceBlockDecoder>, buffers: &mut Vec<Vec<EncodingPacket>>, block_answer: &mut Vec<Option<Vec<u8>>>, block_set_at_flush: &mut Vec<BTreeSet<(u8, u32, usize)>>, set: &BTreeSet<(u8, u32, usize)>| -> Result<(), String> {
+        if buffers[zi].is_empty() {
+            return Ok(());
+        }
+        let batch = std::mem::take(&mut buffers[zi]);
+        let r = blocks[zi].decode(batch);
+        block_set_at_flush[zi] = set.iter().filter(|e| e.0 as usize == zi).cloned().collect();
+        if let Some(prev) = &block_answer[zi] {
+            if r.as_ref() != Some(prev) {
+                return Err(format!("block decoder {zi}: answered before, but a later batch call returns {}", if r.is_some() { "different bytes" } else { "None" }));
+            }
+        }
+        if r.is_some() {
+            block_answer[zi] = r;
+        }
+        Ok(())
+    };
+
+    for (step, op) in c.ops.iter().enumerate() {
+        match op {
+            Op::Deliver(raw) => {
+                let pi = map_index(*raw, npool);
+                let pkt = pool.packets[pi].clone();
+                let sbn = pkt.payload_id().source_block_number();
+                let esi = pkt.payload_id().encoding_symbol_id();
+                deliveries += 1;
+                if let Some(l) = last_sbn {
+                    if l != sbn {
+                        switches += 1;
+                    }
+                }
+                last_sbn = Some(sbn);
+                if switches >= 3 {
+                    interleaved = true;
+                }
+                let fresh = set.insert((sbn, esi, pi));
+                if !fresh && esi < pool.ks[sbn as usize] && first_answer.is_none() {
+                    dup_src_before = true;
+                }
+                if fresh && esi < pool.ks[sbn as usize] {
+                    src_seen[sbn as usize] += 1;
+                }
+                if first_answer.is_some() {
+                    after_completion += 1;
+                }
+                // (A) one-shot interface
+                let ra = a.decode(pkt.clone());
+                // (3) incremental interface agrees with the one-shot interface
+                b.add_new_packet(pkt.clone());
+                let rb = b.get_result();
+                if ra != rb {
+                    return Err(format!("step {step}: decode() gives {} but add_new_packet()+get_result() gives {}", desc(&ra), desc(&rb)));
+                }
+                // (4) the original continues exactly like its clone
+                if let Some(orig) = a_orig.as_mut() {
+                    let ro = orig.decode(pkt.clone());
+                    if ro != ra {
+                        return Err(format!("step {step}: cloned decoder answers {} but the original answers {}", desc(&ra), desc(&ro)));
+                    }
+                }
+                // (2) stability and (5) ground truth
+                if let Some(x) = &ra {
+                    if x != &data {
+                        return Err(format!("step {step}: decoder returned bytes that are not the object"));
+                    }
+                    if first_answer.is_none() {
+                        first_answer = Some(x.clone());
+                    }
+                }
+                if let Some(prev) = &first_answer {
+                    if ra.as_ref() != Some(prev) {
+                        return Err(format!("step {step}: decoder answered before, now answers {}", desc(&ra)));
+                    }
+                }
+                last_a = ra;
+                buffers[sbn as usize].push(pkt);
+            }
+            Op::Flush => {
+                flushes += 1;
+                for zi in 0..z {
+                    flush(zi, &mut blocks, &mut buffers, &mut block_answer, &mut block_set_at_flush, &set)?;
+                }
+            }
+            Op::Clone => {
+                clones += 1;
+                let cl = a.clone();
+                if cl != a {
+                    return Err("a cloned decoder is not equal to its original".into());
+                }
+                a_orig = Some(std::mem::replace(&mut a, cl));
+            }
+            Op::Checkpoint => {
+                checkpoints += 1;
+                let r = reference_object(cfg, &pool.packets, &set);
+                if r != last_a && deliveries > 0 {
+                    return Err(format!("step {step}: after {} distinct packets the decoder's answer is {} but the same set in ascending order, one per call, gives {}", set.len(), desc(&last_a), desc(&r)));
+                }
+            }
+        }
+    }
+    // final comparisons
+    for zi in 0..z {
+        flush(zi, &mut blocks, &mut buffers, &mut block_answer, &mut block_set_at_flush, &set)?;
+    }
+    let r = reference_object(cfg, &pool.packets, &set);
+    if deliveries > 0 && r != last_a {
+        return Err(format!("final: {} distinct packets; history answer {}, reference order answer {}", set.len(), desc(&last_a), desc(&r)));
+    }
+    if b.get_result() != last_a && deliveries > 0 {
+        return Err("final: get_result() differs from the last decode() answer".into());
+    }
+    let mut solver_block = false;
+    for zi in 0..z {
+        let k = pool.ks[zi];
+        let rb = reference_block(&cfg, zi as u8, k, t, &pool.packets, &set);
+        // the batched block decoder has seen exactly the same distinct set after the final flush
+        let got = block_answer[zi].clone();
+        if got.is_some() != rb.is_some() {
+            // a batch call evaluates only once per batch, on the full set so far: set-determined
+            return Err(format!("block {zi} (K={k}): batched delivery answers {} but one-per-call ascending delivery of the same {} distinct packets answers {}", desc(&got), set.iter().filter(|e| e.0 as usize == zi).count(), desc(&rb)));
+        }
+        if let (Some(x), Some(y)) = (&got, &rb) {
+            if x != y {
+                return Err(format!("block {zi}: batched and one-per-call delivery return different bytes"));
+            }
+            let start: usize = pool.ks[..zi].iter().map(|&kk| kk as usize * t).sum();
+            let mut want: Vec<u8> = data[start.min(f)..(start + k as usize * t).min(f)].to_vec();
+            want.resize(k as usize * t, 0);
+            if x != &want {
+                return Err(format!("block {zi}: decoded bytes are not the block"));
+            }
+            if src_seen[zi] < k {
+                solver_block = true;
+            }
+        }
+    }
+    st.evals(deliveries as u64);
+    st.class_if(clones > 0, "history with clone");
+    st.class_if(flushes > 0, "history with batch flush");
+    st.class_if(interleaved, "interleaved blocks");
+    st.class_if(dup_src_before, "duplicate source packet before completion");
+    st.class_if(after_completion > 0, "delivery after completion");
+    st.class_if(solver_block, "a block completed by the solver");
+    st.class_if(first_answer.is_some(), "object completed");
+    st.class_if(checkpoints > 0, "checkpoint comparisons");
+    if dup_src_before && after_completion > 0 && solver_block {
+        let bytes: Vec<u8> = c.ops.iter().flat_map(|o| match o {
+            Op::Deliver(r) => vec![0, (*r >> 8) as u8, *r as u8],
+            Op::Flush => vec![1],
+            Op::Clone => vec![2],
+            Op::Checkpoint => vec![3],
+        }).collect();
+        st.nt(fnv_u64s(&[spec.seed, f as u64, fnv64(&bytes)]));
+    }
+    st.sample(|| json!({"F": f, "T": t, "Z": spec.z, "N": spec.n, "K_per_block": pool.ks, "ops": c.ops.len(), "deliveries": deliveries, "distinct": set.len(), "clones": clones, "flushes": flushes, "completed": first_answer.is_some()}));
+    Ok(())
+}
+
+fn desc(r: &Option<Vec<u8>>) -> String {
+    match r {
+        None => "None".into(),
+        Some(v) => format!("Some({} bytes, fnv {:x})", v.len(), fnv64(v)),
+    }
+}
+
+fn op_json(o: &Op) -> Value {
+    match o {
+        Op::Deliver(r) => json!({"d": r}),
+        Op::Flush => json!("flush"),
+        Op::Clone => json!("clone"),
+        Op::Checkpoint => json!("checkpoint"),
+    }
+}
+
+fn to_json(c: &Case) -> Value {
+    json!({"spec": c.spec.to_json(), "ops": c.ops.iter().map(op_json).collect::<Vec<_>>()})
+}
+
+fn from_json(v: &Value) -> Case {
+    Case {
+        spec: ObjectSpec::from_json(&v["spec"]),
+        ops: v["ops"]
+            .as_array()
+            .unwrap()
+            .iter()
+            .map(|o| match o.as_str() {
+                Some("flush") => Op::Flush,
+                Some("clone") => Op::Clone,
+                Some("checkpoint") => Op::Checkpoint,
+                _ => Op::Deliver(o["d"].as_u64().unwrap() as u16),
+            })
+            .collect(),
+    }
+}
+
+fn signature(_: &Case, msg: &str) -> String {
+    let kind = if msg.contains("panic") {
+        "panic"
+    } else if msg.contains("add_new_packet") || msg.contains("get_result") {
+        "incremental-vs-oneshot"
+    } else if msg.contains("clone") {
+        "clone"
+    } else if msg.contains("answered before") {
+        "unstable-answer"
+    } else if msg.contains("ascending") || msg.contains("reference order") {
+        "order-dependence"
+    } else if msg.contains("batched") {
+        "batching"
+    } else if msg.contains("not the object") || msg.contains("not the block") {
+        "wrong-bytes"
+    } else {
+        "other"
+    };
+    format!("history:{kind}")
+}
+
+pub fn run(ctx: &Ctx, rep: &mut Report) {
+    rep.rule = "stateful: generated object (Z <= 3 blocks, K <= 40 per block, several (Al,T,N)) with a packet pool (all source packets + K/2+6 repair packets per block with near/uniform/far ESIs) and a generated history of up to 420 operations: Deliver(any pool index: duplicates and re-delivery after completion occur), Flush (per-block batches through SourceBlockDecoder::decode(iter)), Clone (continue on the clone, keep the original running on the same suffix), Checkpoint. Invariants after every step: decode() == add_new_packet()+get_result(); clone == original and both give identical answers afterwards; once Some(x), always Some(x); any Some equals the object; at checkpoints and at the end the answer equals that of a fresh decoder fed the distinct packets in ascending (SBN, ESI) order one per call; batched per-block delivery == one-per-call delivery of the same set. Non-trivial = history with a duplicate source packet before completion, a delivery after completion and a block completed by the solver; distinct by (object, op sequence).".into();
+    let n = ctx.tier.pick(15_000u64, 400_000);
+    rep.absorb("history", run_sharded("C08", "history", ctx.seed, n, 32, strategy, check, to_json, signature));
+}
+
+pub fn replay(_sub: &str, case: &Value) -> Result<(), String> {
+    check(&from_json(case), &mut Stats::new())
 }
